@@ -232,11 +232,17 @@ def _c16():
 def _c18():
     hs = [H("c18::c18a_lex_ascii_3", "TokenLexer on every 3-byte ASCII source", covers=("end", "crlf_collapsed")),
           H("c18::c18a_lex_ascii_4", "TokenLexer on every 4-byte ASCII source", covers=("end", "crlf_collapsed")),
-          H("c18::c18a_lex_multibyte", "any code point followed by an ASCII byte", covers=("end", "astral"))]
-    return _simple(hs, ["lexer::TokenLexer::next"],
-                   "sources of 3-4 ASCII bytes; one arbitrary code point + one ASCII byte",
+          H("c18::c18a_lex_multibyte", "any code point followed by an ASCII byte", covers=("end", "astral")),
+          H("c18::c18c_peek_indentation_5", "SassParser::peek_indentation on 5 tokens over {space, tab, newline, letter}: indentation of the "
+            "next non-blank line, whitespace-only lines ignored, mixed tabs/spaces rejected", covers=("end", "indented", "mixed_tabs_spaces"),
+            flags=ST + ("--no-memory-safety-checks",), timeout=1500),
+          H("c18::c18c_peek_indentation_7", "the same on 7 tokens", tiers=T, covers=("end", "indented", "mixed_tabs_spaces"),
+            flags=ST + ("--no-memory-safety-checks",), timeout=2400)]
+    return _simple(hs, ["lexer::TokenLexer::next", "parse::sass::SassParser::{peek_indentation, check_indentation_consistency}"],
+                   "sources of 3-4 ASCII bytes; one arbitrary code point + one ASCII byte; indentation over 5 (7) tokens",
                    "SCSS/indented/CSS agreement of the statement parsers, BOM/@charset handling, whitespace/comment insertion, "
-                   "`_`/`-` identifier normalisation (see DESIGN.md), Lexer::new_from_* (collect with data-dependent length)")
+                   "`_`/`-` identifier normalisation (see DESIGN.md), Lexer::new_from_* (collect with data-dependent length)",
+                   stubs=[RS_STUB, FMT_STUB])
 
 
 def _c19():
